@@ -226,6 +226,20 @@ fn hash_trace(v: &[u16]) -> u64 {
     h
 }
 
+/// `check.prepare` plus what every T check gets: simulated time. In one work out of three any
+/// timed wait jubako performs (`recv_timeout`, `wait_timeout`, ...) that has nothing to return
+/// yet times out with probability 1/4 - relative speeds are arbitrary, so a timeout may elapse
+/// before any peer makes progress. (The pinned tree has no timed wait; the probe
+/// `timed_wait_reached` says whether the code under test has.)
+pub fn prepare_work(check: &dyn TCheck, seed: u64, tier: Tier, work: u64, scratch: &std::path::Path) -> Prepared {
+    let mut prep = check.prepare(seed, tier, work, scratch);
+    if work % 3 == 1 {
+        prep.knobs.push(("timeout_fire_pm", 250));
+        prep.knobs.push(("timeout_seed", simcore::prng::hash_label(seed, "timeouts", work)));
+    }
+    prep
+}
+
 pub fn worker_main(check: &dyn TCheck, args: &Args, w: usize, n: usize) -> ! {
     let hooks = exec::install_hooks();
     exec::install_quiet_panic_hook();
@@ -242,7 +256,7 @@ pub fn worker_main(check: &dyn TCheck, args: &Args, w: usize, n: usize) -> ! {
                 continue;
             }
         }
-        let prep = check.prepare(args.seed, args.tier, work, &scratch.path);
+        let prep = prepare_work(check, args.seed, args.tier, work, &scratch.path);
         println!("{}", json!({"t":"work","work":work,"desc":prep.desc,"knobs":prep.knobs.iter().map(|(k,v)| json!([k,v])).collect::<Vec<_>>()}));
         for s in 0..scheds {
             let sched_seed = simcore::prng::hash_label(args.seed, &format!("{}-sched", check.id()), work * 100_000 + s);
@@ -509,6 +523,18 @@ pub fn parent_main(check: &dyn TCheck, args: &Args) -> ! {
             }
         }
     }
+    // summaries of auxiliary passes run by the driver before this one: "key=path,key=path"
+    if let Ok(list) = std::env::var("VERIF_EXTRA_SUMMARIES") {
+        for item in list.split(',') {
+            if let Some((k, path)) = item.split_once('=') {
+                if let Ok(text) = std::fs::read_to_string(path) {
+                    if let Ok(v) = serde_json::from_str::<Value>(&text) {
+                        ev.extra.insert(k.to_string(), v);
+                    }
+                }
+            }
+        }
+    }
     if asan_pass() {
         println!("{id} memory-checker pass: {} executions, {} violations", ev.evaluations, violations.len());
         std::process::exit(if violations.is_empty() { 0 } else { 1 })
@@ -550,7 +576,7 @@ pub fn replay_main(check: &dyn TCheck, _args: &Args, file: &str) -> ! {
     let hooks = exec::install_hooks();
     exec::install_quiet_panic_hook();
     let scratch = simcore::Scratch::new(&format!("{}-replay", check.id()));
-    let prep = check.prepare(seed, tier, work, &scratch.path);
+    let prep = prepare_work(check, seed, tier, work, &scratch.path);
     if v["trace"].as_array().is_none() && std::env::var("VERIF_REPLAY_INNER").is_err() {
         // the recorded violation is a process death: observe it from outside
         let st = std::process::Command::new(std::env::current_exe().unwrap())
